@@ -22,6 +22,7 @@ FNODE = "pysmt.fnode.FNode"
 FM = "pysmt.formula.FormulaManager"
 ENV = "pysmt.environment.Environment"
 STC = "pysmt.type_checker.SimpleTypeChecker"
+WALKER = "pysmt.walkers.generic.Walker"
 
 
 class SymStr(Abs):
@@ -273,6 +274,19 @@ class World(Domain):
         return False, None
 
     def getattr(self, it, obj, name):
+        if isinstance(obj, AObj) and name.startswith("walk_") and name not in obj.attrs and \
+                obj.cls in self.repo.classes and WALKER in self.repo.mro(obj.cls):
+            # handler resolution as MetaNodeTypeHandler + getattr do it at run time
+            from .handlers import get_tables
+            ht = get_tables()
+            for q in self.repo.mro(obj.cls):
+                ns = ht.class_ns(q)
+                if name in ns and ns[name].func is not None:
+                    h = ns[name]
+                    return True, self.wrap_handler(it, Func(h.func, self.repo.classes[h.cls].module, h.cls, bound=obj), h)
+                ci = self.repo.classes[q]
+                if name in ci.attrs:
+                    break
         if isinstance(obj, AObj):
             if obj.cls == FM and name == "create_node":
                 return True, Prim(self._create_node, "create_node")
@@ -301,6 +315,13 @@ class World(Domain):
         if isinstance(obj, SymStr) or (isinstance(obj, str) and False):
             raise Unsupported("method %s of symbolic string" % name)
         return False, None
+
+    def wrap_handler(self, it, fn, h):
+        return fn
+
+    def new_walker(self, qual, *args, **kwargs):
+        """Instantiate a walker class by interpreting its __init__ chain."""
+        return self.it.instantiate(ClassRef(qual), list(args), kwargs)
 
     def _math(self, name, args):
         raise Unsupported("math.%s" % name)
@@ -425,6 +446,11 @@ class World(Domain):
         if isinstance(p, Abs) or isinstance(q, Abs):
             return p is q
         return type(p) is type(q) and p == q
+
+    def contains(self, it, container, item):
+        if isinstance(container, AObj) and container.cls == FM:
+            return True, self.is_node(item)
+        return False, None
 
     def to_str(self, it, x):
         if isinstance(x, (SymInt, SymBool)):
